@@ -267,3 +267,141 @@ spec(lean="to_subtree_impl", module="AlgoShortTip", file=_SI, func="to_subtree_i
      doc="`swcgeom/core/tree_utils_impl.py::to_subtree_impl`, `out_mapping` a list (the tree `swc_like` is its columns `ids`, `pids`, `types` and `xs` - "
          "the latter, over a type parameter, stands for every further attribute column -, its `source` and `names` are opaque values; the returned "
          "`ndata` dictionary is the tuple of its columns; the columns of the input are returned as well: they are unchanged)")
+
+
+# --- a call `F(T, a, …, kw=…)` of a translated function whose FIRST python parameter is a tree given by its columns and opaque attributes
+# (registered in TREE2_CALLEES: python callee text -> lean name): the callee's column parameters are the caller's columns of `T` of the same
+# names, its attribute parameters (`subst` of `<tree>.<attr>`) the caller's `T.<attr>`, its other parameters the remaining arguments by position /
+# keyword; the variables it returns besides its result (`out`) are written back (columns by column name, others to the keyword's variable)
+TREE2_CALLEES = {}
+
+
+def _tree2_call(tr, e, want):
+    if not (isinstance(e, ast.Call) and ast.unparse(e.func) in TREE2_CALLEES and e.args and ast.unparse(e.args[0]) in tr.spec.tree_cols):
+        return None
+    callee = by_lean_global[TREE2_CALLEES[ast.unparse(e.func)]]
+    T = ast.unparse(e.args[0])
+    mine = tr.spec.tree_cols[T]
+    ctree = next(iter(callee.tree_cols))
+    inv = {var: key for key, var in callee.tree_cols[ctree].items()}
+    attr = {code[len("v."):]: txt[len(ctree) + 1:] for txt, (code, *_r) in callee.subst.items() if txt.startswith(ctree + ".") and code.startswith("v.")}
+    rest, kw = list(e.args[1:]), {k.arg: k.value for k in e.keywords}
+    steps, codes, argof = [], [], {}
+    for pn in callee.params:
+        if pn in inv:
+            if inv[pn] not in mine:
+                raise Untranslatable(f"{tr.spec.lean}: `{ast.unparse(e)}` needs column `{inv[pn]}`")
+            codes.append(f"v.{lname(mine[inv[pn]])}")
+        elif pn in attr:
+            s0, c, _ = tr.tr(ast.parse(f"{T}.{attr[pn]}", mode="eval").body); steps += s0; codes.append(c)
+        else:
+            x = rest.pop(0) if rest else kw.pop(pn, None)
+            if x is None:
+                raise Untranslatable(f"{tr.spec.lean}: `{ast.unparse(e)}` gives no value for `{pn}`")
+            s0, c, t = tr.tr(x, self_want(callee, pn))
+            s0, c = tr.coerce2(s0, c, t, self_want(callee, pn))
+            steps += s0; codes.append(c); argof[pn] = x
+    if rest or kw:
+        raise Untranslatable(f"{tr.spec.lean}: arguments of `{ast.unparse(e)}`")
+    if callee.fuel and not tr.spec.fuel:
+        raise Untranslatable(f"{tr.spec.lean} calls {callee.lean} which needs fuel")
+    n = tr.bindname()
+    k = len(callee.out) + 1
+    ups = []
+    for j, o in enumerate(callee.out):
+        if o in inv:
+            ups.append(f"{lname(mine[inv[o]])} := {proj(n, j, k)}")
+        elif o in argof and isinstance(argof[o], ast.Name):
+            ups.append(f"{lname(argof[o].id)} := {proj(n, j, k)}")
+        else:
+            raise Untranslatable(f"{tr.spec.lean}: `{ast.unparse(e)}`: the updated `{o}` has no variable to go back to")
+    upd = f" let v := {{ v with {', '.join(ups)} }};" if ups else ""
+    bargs = " ".join(f"({t} := {t})" for t in callee.tparams if t in tr.spec.tparams)
+    return (steps + [f"Py.bind ({callee.lean} {bargs} {'fuel ' if callee.fuel else ''}{' '.join(codes)}) fun {n} =>{upd}"], proj(n, k - 1, k), parse_type(callee.ret))
+
+
+# --- `n, X, s, m = <call returning (count, columns, source, names)>` with X a dictionary of per-node arrays that is its column variables:
+# the components of the columns tuple are assigned to X's column variables
+def _assign_columns(tr, s):
+    if not (isinstance(s, ast.Assign) and len(s.targets) == 1 and isinstance(s.targets[0], ast.Tuple)
+            and all(isinstance(x, ast.Name) for x in s.targets[0].elts) and any(x.id in tr.spec.tree_cols and x.id not in tr.vars for x in s.targets[0].elts)):
+        return None
+    st, c, t = tr.tr(s.value)
+    elts = s.targets[0].elts
+    parts = prod_parts(t, len(elts))
+    n = tr.bindname()
+    ups = []
+    for k, (x, pt) in enumerate(zip(elts, parts)):
+        if x.id in tr.spec.tree_cols and x.id not in tr.vars:
+            cols = list(tr.spec.tree_cols[x.id].values())
+            cpts = prod_parts(pt, len(cols))
+            for j, (cv, cpt) in enumerate(zip(cols, cpts)):
+                if tr.var_type(cv) != cpt:
+                    raise Untranslatable(f"{tr.spec.lean}: column `{cv}` is declared {tr.var_type(cv)} but assigned {cpt}")
+                ups.append(f"{lname(cv)} := {proj(proj(n, k, len(elts)), j, len(cols))}")
+        else:
+            if x.id not in tr.vars:
+                tr.vars[x.id] = pt
+            if tr.var_type(x.id) != pt:
+                raise Untranslatable(f"{tr.spec.lean}: `{x.id}` is declared {tr.var_type(x.id)} but assigned {pt}")
+            ups.append(f"{lname(x.id)} := {proj(n, k, len(elts))}")
+    return tr.chain(st + [f"let {n} := {c};"], f".next {{ v with {', '.join(ups)} }}")
+
+
+# --- `Tree(n, **X, source=s, names=m)`: the tree built from a dictionary of per-node arrays that is its column variables: (n, columns, s, m)
+def _tree_ctor(tr, e, want):
+    if not (isinstance(e, ast.Call) and ast.unparse(e.func) == "Tree" and len(e.args) == 1):
+        return None
+    star = [k.value for k in e.keywords if k.arg is None]
+    kw = {k.arg: k.value for k in e.keywords if k.arg is not None}
+    if len(star) != 1 or not isinstance(star[0], ast.Name) or star[0].id not in tr.spec.tree_cols or set(kw) != {"source", "names"}:
+        return None
+    s0, n, tn = tr.tr(e.args[0])
+    s1, cols, tc = tr.tr(star[0])
+    s2, src, ts = tr.tr(kw["source"])
+    s3, nm, tm = tr.tr(kw["names"])
+    return s0 + s1 + s2 + s3, f"({n}, {cols}, {src}, {nm})", prod_of([tn, tc, ts, tm])
+
+
+STMT_HOOKS.append(_assign_columns)
+EXPR_HOOKS.extend([_tree2_call, _tree_ctor])
+TREE2_CALLEES["to_subtree_impl"] = "to_subtree_impl"
+TREE2_CALLEES["get_subtree_impl"] = "get_subtree_impl_tree"
+
+_SI_OUT = ["out_mapping", "ids", "pids", "types", "xs"]
+# in the callers the tree's own attributes are the parameters `t_source` / `t_names`; `source` / `names` are the python locals of the same name
+_SI_SUBST2 = {"swc_like.source": ("v.t_source", "Src"), "swc_like.names": ("v.t_names", "Nm")}
+_SI_VARS2 = {**{k: v for k, v in _SI_VARS.items() if k not in ("source", "names")}, "t_source": "Src", "t_names": "Nm", "source": "Src", "names": "Nm"}
+_SI_PARAMS2 = ["ids", "pids", "types", "xs", "t_source", "t_names"]
+spec(lean="to_subtree_tree", module="AlgoShortTip", file=_CUT_TU, func="to_subtree",
+     params=_SI_PARAMS2 + ["removals", "out_mapping"], tparams=["A", "Src", "Nm"], tree_cols=_SI_COLS,
+     vars={**_SI_VARS2, "removals": "List Int", "out_mapping": "List Int", "new_ids": "List Int", "i": "Int", "sub": "(List Int) × (List Int)",
+           "n_nodes": "Int"},
+     ret=_SI_RET, out=_SI_OUT, subst=_SI_SUBST2, fuel=True,
+     doc="`swcgeom/core/tree_utils.py::to_subtree` on ALL columns (calls the translated `to_subtree_impl`; the resulting `Tree` is its node count, "
+         "columns, source and names)")
+_SI_TCOLS = {"swc_like": {"id": "tids", "pid": "tpids", "type": "ttypes", "x": "txs"}}
+_SI_TVARS = {"tids": "List Int", "tpids": "List Int", "ttypes": "List Int", "txs": "List A", "t_source": "Src", "t_names": "Nm"}
+_SI_TPARAMS = ["tids", "tpids", "ttypes", "txs", "t_source", "t_names"]
+_SI_TOUT = ["out_mapping", "tids", "tpids", "ttypes", "txs"]
+spec(lean="get_subtree_impl_tree", module="AlgoShortTip", file=_SI, func="get_subtree_impl",
+     params=_SI_TPARAMS + ["n", "out_mapping"], tparams=["A", "Src", "Nm"], tree_cols=_SI_TCOLS,
+     vars={**_SI_TVARS, "n": "Int", "out_mapping": "List Int", "ids": "List Int", "topo": "(List Int) × (List Int)", "sub_ids": "List Int",
+           "sub_pid": "List Int"},
+     ret=_SI_RET, out=_SI_TOUT, subst=_SI_SUBST2, fuel=True, closures={"<lambda>": "subtree_collect"},
+     doc="`swcgeom/core/tree_utils_impl.py::get_subtree_impl` on ALL columns (the tree is its columns `tids`, `tpids`, `ttypes`, `txs`; calls the "
+         "translated traversal with the collecting lambda and the translated `to_subtree_impl`)")
+spec(lean="get_subtree_tree", module="AlgoShortTip", file=_CUT_TU, func="get_subtree",
+     params=_SI_TPARAMS + ["n", "out_mapping"], tparams=["A", "Src", "Nm"],
+     tree_cols={**_SI_TCOLS, "ndata": _SI_COLS["ndata"]},
+     vars={**_SI_TVARS, "n": "Int", "out_mapping": "List Int", "n_nodes": "Int", "source": "Src", "names": "Nm",
+           "nids": "List Int", "npids": "List Int", "ntypes": "List Int", "nxs": "List A"},
+     ret=_SI_RET, out=_SI_TOUT, subst=_SI_SUBST2, fuel=True,
+     doc="`swcgeom/core/tree_utils.py::get_subtree` on ALL columns (the resulting `Tree` is its node count, columns, source and names)")
+spec(lean="to_sub_tree", module="AlgoShortTip", file=_CUT_TU, func="to_sub_tree",
+     params=_SI_PARAMS2 + ["sub"], tparams=["A", "Src", "Nm"], tree_cols=_SI_COLS,
+     vars={**_SI_VARS2, "sub": "(List Int) × (List Int)", "new_id": "List Int", "new_pid": "List Int", "id_map_arr": "List Int", "n_nodes": "Int",
+           "subtree": _SI_RET, "id_map": "Dict Int Int", "i": "Int", "idx": "Int"},
+     ret=f"({_SI_RET}) × (Dict Int Int)", out=["ids", "pids", "types", "xs"], subst=_SI_SUBST2, fuel=True,
+     doc="`swcgeom/core/tree_utils.py::to_sub_tree` (deprecated wrapper) on ALL columns: the resulting `Tree` (node count, columns, source, names) and the "
+         "old→new id dictionary")
